@@ -370,6 +370,11 @@ class EvolveStateVector(torch.autograd.Function):
         )
 
 
+def _hermitian_part(matrix: torch.Tensor) -> torch.Tensor:
+    """Return (M + M†)/2"""
+    return 0.5 * (matrix + matrix.conj().T)
+
+
 class EvolveDensityMatrix:
     """Evolution of a density matrix under a Lindbladian operator."""
 
@@ -414,13 +419,14 @@ class EvolveDensityMatrix:
         def op(x: torch.Tensor) -> torch.Tensor:
             return -1j * dt * (ham @ x)
 
-        return (
-            krylov_exp(
-                op,
-                density_matrix,
-                norm_tolerance=krylov_tolerance,
-                exp_tolerance=krylov_tolerance,
-                is_hermitian=False,
-            ),
-            ham,
+        evolved = krylov_exp(
+            op,
+            density_matrix,
+            norm_tolerance=krylov_tolerance,
+            exp_tolerance=krylov_tolerance,
+            is_hermitian=False,
         )
+        # RydbergLindbladian.__matmul__ is the Lindbladian only on Hermitian matrices
+        # (it uses Heff ρ - (Heff ρ)†): the anti-Hermitian rounding residue of ρ is
+        # amplified at every step unless it is dropped.
+        return _hermitian_part(evolved), ham
